@@ -188,6 +188,42 @@ def mujoco_worker(name: str, n: int, seed: int) -> dict:
         g.set_state(np.asarray(own.sim_state.qpos, dtype=np.float64), np.asarray(own.sim_state.qvel, dtype=np.float64))
         D["own_reset_obs"].append(_dev(obs_l(env, own), g._get_obs()))
 
+    # placed states far from anything a random rollout reaches (large positions / angles / velocities): observation at the
+    # placed state (fresh derived quantities on both sides, no physics) and the termination predicate on Gymnasium's successor
+    D["placed_obs"] = []
+    m = g.model
+    for i in range(n):
+        g.reset(seed=seed + 500 + i)
+        qpos, qvel = g.data.qpos.copy(), g.data.qvel.copy()
+        for j in range(m.njnt):
+            t, qa, da = int(m.jnt_type[j]), int(m.jnt_qposadr[j]), int(m.jnt_dofadr[j])
+            if t == 0:                                    # free joint
+                if rng.random() < 0.7:
+                    qpos[qa:qa + 3] += rng.uniform(-30, 30, size=3) * (rng.random(3) < 0.5)
+                if rng.random() < 0.5:
+                    qpos[qa + 3:qa + 7] = rng.normal(size=4)
+                if rng.random() < 0.5:
+                    qvel[da:da + 6] = rng.uniform(-15, 15, size=6)
+            elif t == 1:                                  # ball joint
+                qpos[qa:qa + 4] = rng.normal(size=4)
+            else:                                         # slide / hinge
+                if rng.random() < 0.5:
+                    qpos[qa] += rng.uniform(-30, 30)
+                if rng.random() < 0.5:
+                    qvel[da] = rng.uniform(-15, 15)
+        qpos = canonical(qpos)
+        g.set_state(qpos, qvel)
+        o_g = np.asarray(g._get_obs(), dtype=np.float64)
+        st = place(env, jnp.asarray(qpos, jnp.float32), jnp.asarray(qvel, jnp.float32))
+        o_l = np.asarray(obs_l(env, st), dtype=np.float64)
+        k = len(o_g) - ncf
+        D["placed_obs"].append(_dev(o_l[:k], o_g[:k]) if o_l.shape == o_g.shape else math.inf)
+        _, _, t_g, _, _ = g.step(np.zeros(g.action_space.shape, dtype=np.float32))
+        if np.all(np.isfinite(g.data.qpos)) and np.all(np.isfinite(g.data.qvel)) and float(g.data.time) > 0:
+            st_g = place(env, jnp.asarray(canonical(g.data.qpos), jnp.float32), jnp.asarray(g.data.qvel, jnp.float32))
+            term_seen += int(bool(t_g))
+            term_mis += int(bool(term_l(env, st_g)) != bool(t_g))
+
     for i in range(n):
         g.reset(seed=seed + 100 + i)
         for _ in range(int(rng.integers(0, 40))):
@@ -248,6 +284,7 @@ def mujoco_worker(name: str, n: int, seed: int) -> dict:
     atoms = {
         "TimeStepIsGymnasiums": bool(abs(float(env.dt) - float(g.dt)) < 1e-7 and int(env.frame_skip) == int(g.frame_skip)),
         "ResetObservationIsGymnasiums": bool(judge(D["reset_obs"], False) and judge(D["own_reset_obs"], False)),
+        "ObservationOfPlacedStatesIsGymnasiums": judge(D["placed_obs"], False),
         "StepObservationIsGymnasiums": judge(D["obs"], True),
         "RewardIsGymnasiums": judge(D["rew"], True),
         "RewardComponentsAreGymnasiums": bool(comps_ok),
